@@ -86,3 +86,75 @@ func deepChainProbe(r *evid.Run, sz sizes) {
 		c.flush()
 	}
 }
+
+// longPrefixProbe builds small trees in which two (or three) keys share a very long run of bytes with
+// nothing branching off inside it, so one internal node carries a label of hundreds to tens of
+// thousands of bits, and asks the honest server for lookup proofs of every key (both proof versions)
+// and for the full iteration: every honest proof must verify and determine the key. Key lengths go up to
+// the tree's limit (8191 bytes).
+func longPrefixProbe(r *evid.Run, sz sizes) {
+	for ci, n := range []int{130, 1023, 1024, 1500, 4000, 8100} {
+		c := &caseCtx{r: r, rep: r, sz: sz, idx: -20 - ci, ctx: context.Background(), cnt: map[string]int64{}, set: map[string]map[string]struct{}{}}
+		rng := r.Rand(^uint64(2), uint64(ci))
+		run := make([]byte, n)
+		for i := range run {
+			run[i] = []byte{0x00, 0x61, 0x7f, 0x80, 0xff}[rng.IntN(5)]
+		}
+		content := map[string][]byte{
+			string(append(append([]byte(nil), run...), 0x01, 'x')): []byte("left"),
+			string(append(append([]byte(nil), run...), 0x81, 'y')): []byte("right"),
+			"a":  []byte("short"),
+			"zz": []byte("other"),
+		}
+		if ci%2 == 1 {
+			content[string(append(append([]byte(nil), run...), 0x81, 'y', 'z'))] = []byte("below")
+		}
+		var serr error
+		if msg, _ := guard(func() { serr = c.setup(rng, content) }); msg != "" || serr != nil {
+			r.Inconclusive("long prefix probe: cannot build tree: %v %s", serr, msg)
+			c.flush()
+			continue
+		}
+		if c.readBack() {
+			for ks := range content {
+				key := []byte(ks)
+				for ver := 0; ver <= 1; ver++ {
+					f := complFail{Op: "get", Key: fmt.Sprintf("%d bytes, shared run of %d", len(key), n), Version: ver, Position: "root"}
+					var rsp *syncer.ProofResponse
+					var err error
+					if msg, st := guard(func() {
+						rsp, err = c.server.SyncGet(c.ctx, &syncer.GetRequest{
+							Tree: syncer.TreeID{Root: c.root, Position: c.root.Hash}, Key: key, ProofVersion: uint16(ver),
+						})
+					}); msg != "" {
+						c.complViolation("panic/server-syncget", "panic in SyncGet: "+msg, f, nil, st)
+						continue
+					}
+					if err != nil {
+						c.complViolation(fmt.Sprintf("c04/completeness/server-error/get/v%d", ver), "SyncGet fails on a committed tree: "+err.Error(), f, nil, "")
+						continue
+					}
+					c.count("long_prefix_probe/proofs", 1)
+					v, ok := c.verifyHonest("get", f, c.root.Hash, &rsp.Proof)
+					if !ok {
+						continue
+					}
+					found := false
+					for _, e := range v.wl {
+						if bytes.Equal(e.Key, key) && bytes.Equal(e.Value, content[ks]) {
+							found = true
+						}
+					}
+					if !found {
+						c.complViolation(fmt.Sprintf("c04/completeness/writelog-missing-key/get/v%d", ver),
+							"verified honest proof through a long-label node does not determine the requested key", f, &rsp.Proof, "")
+						continue
+					}
+					c.count("long_prefix_probe/verified", 1)
+				}
+			}
+		}
+		c.close()
+		c.flush()
+	}
+}
